@@ -10,6 +10,12 @@
 // the model ticks per plan so that the real wall clock reads cat.local when the plan starts: the TSO key it writes is
 // then really cat.now-cat.local ms ahead of (or behind) time.Now().  Catalogs without cat.local use the fixed origin
 // of package catalog (2023: years behind every wall clock).
+//
+// Size: a catalog may name filler blocks (cat.fill.c for the collection-record prefix, cat.fill.p for the
+// partition-record prefix): n live records with names outside the universe, container (database / collection) and ids
+// chosen by the model so that the block sorts into one gap of the store's key order.  The driver writes them in
+// transactions, reads the keys of both prefixes back and logs which interesting records really sort behind the block
+// (fillobs: evidence that the plan's size class was realised; the contract does not look at it).
 package main
 
 import (
@@ -18,6 +24,8 @@ import (
 	"os"
 	"reflect"
 	"sort"
+	"strconv"
+	"strings"
 	"time"
 	"unsafe"
 
@@ -171,6 +179,112 @@ func main() {
 			w.PutPartition(catalog.Partition{CollID: cid, ID: id, Name: conc(hx.S(pt, "name")),
 				State: catalog.PartitionState(st), CreateTime: clk.HybridTs(hx.I(pt, "ct"))})
 		}
+		// ---- the size of the catalog: filler blocks
+		noobs := func() hx.Event { return hx.Event{"keys": 0, "fillers": 0, "contiguous": true, "behind": []int{}} }
+		fillobs := hx.Event{"c": noobs(), "p": noobs()}
+		if fill := m(cat["fill"]); fill != nil {
+			fc, fp := m(fill["c"]), m(fill["p"])
+			fillDb := map[int64]bool{}
+			addFillDb := func(id int64) {
+				if fillDb[id] {
+					return
+				}
+				fillDb[id] = true
+				name := fmt.Sprintf("fdb%d", id)
+				w.PutDatabase(id, name, clk.HybridTs(1))
+				downIdx[name] = len(down)
+				down = append(down, downDB{name: name, colls: map[string]bool{}})
+			}
+			dbNameOfID := map[int64]string{}
+			for _, d := range hx.ML(cat, "dbs") {
+				dbNameOfID[int64(hx.I(d, "id"))] = hx.S(d, "name")
+			}
+			var kvs []catalog.KV
+			if fc != nil && hx.B(fc, "on") {
+				cont, base, n := int64(hx.I(fc, "cont")), int64(hx.I(fc, "base")), hx.I(fc, "n")
+				dname := fmt.Sprintf("fdb%d", cont)
+				if hx.B(fc, "own") {
+					addFillDb(cont)
+				} else {
+					dname = dbNameOfID[cont]
+					if !dbLive[dname] {
+						panic("dropsnap: filler collections in a database that is not live")
+					}
+				}
+				for k := 0; k < n; k++ {
+					name := fmt.Sprintf("fc%05d", k)
+					kvs = append(kvs, w.CollectionKV(catalog.Collection{DbID: cont, ID: base + int64(k), Name: name,
+						State: catalog.CollectionState("created"), CreateTime: clk.HybridTs(5)}))
+					down[downIdx[dname]].colls[name] = true
+				}
+			}
+			if fp != nil && hx.B(fp, "on") {
+				cont, base, n := int64(hx.I(fp, "cont")), int64(hx.I(fp, "base")), hx.I(fp, "n")
+				if hx.B(fp, "own") {
+					addFillDb(1)
+					kvs = append(kvs, w.CollectionKV(catalog.Collection{DbID: 1, ID: cont, Name: "fcoll",
+						State: catalog.CollectionState("created"), CreateTime: clk.HybridTs(5)}))
+					down[downIdx["fdb1"]].colls["fcoll"] = true
+				} else if !visColl[cont] {
+					panic("dropsnap: filler partitions in a collection without a readable record")
+				}
+				for k := 0; k < n; k++ {
+					kvs = append(kvs, w.PartitionKV(catalog.Partition{CollID: cont, ID: base + int64(k), Name: fmt.Sprintf("fp%05d", k),
+						State: catalog.PartitionState("created"), CreateTime: clk.HybridTs(6)}))
+				}
+			}
+			w.PutBatch(kvs)
+			// what the store really holds: position of the interesting records relative to the filler block
+			observe := func(prefix string, f map[string]interface{}, recs []map[string]interface{}, keyOf func(r map[string]interface{}) string) hx.Event {
+				o := noobs()
+				if f == nil || !hx.B(f, "on") {
+					return o
+				}
+				keys := w.Keys(prefix)
+				pos := map[string]int{}
+				for i, k := range keys {
+					pos[k] = i
+				}
+				cont, base, n := int64(hx.I(f, "cont")), int64(hx.I(f, "base")), hx.I(f, "n")
+				first, last, cnt := len(keys), -1, 0
+				for i, k := range keys {
+					parts := strings.Split(k[len(prefix):], "/")
+					if len(parts) != 2 {
+						continue
+					}
+					c, _ := strconv.ParseInt(parts[0], 10, 64)
+					id, _ := strconv.ParseInt(parts[1], 10, 64)
+					if c == cont && id >= base && id < base+int64(n) {
+						cnt++
+						if i < first {
+							first = i
+						}
+						if i > last {
+							last = i
+						}
+					}
+				}
+				behind := []int{}
+				for _, r := range recs {
+					i, ok := pos[keyOf(r)]
+					if !ok {
+						panic("dropsnap: a record of the plan is not in the store: " + keyOf(r))
+					}
+					if i > last {
+						behind = append(behind, hx.I(r, "id"))
+					}
+				}
+				sort.Ints(behind)
+				o["keys"], o["fillers"], o["contiguous"], o["behind"] = len(keys), cnt, cnt == n && last-first+1 == n, behind
+				return o
+			}
+			fillobs["c"] = observe(w.CollectionPrefix(), fc, hx.ML(cat, "colls"), func(r map[string]interface{}) string {
+				return w.CollectionKey(int64(hx.I(r, "dbid")), int64(hx.I(r, "id")))
+			})
+			fillobs["p"] = observe(w.PartitionPrefix(), fp, hx.ML(cat, "parts"), func(r map[string]interface{}) string {
+				return w.PartitionKey(int64(hx.I(r, "cid")), int64(hx.I(r, "id")))
+			})
+		}
 		tso := clk.TimeOfTick(hx.I(cat, "now")) // the source's current time, wherever the local clock is
 		w.PutTSO(tso)
 
@@ -251,7 +365,7 @@ func main() {
 			for range table {
 				kinds++
 			}
-			evs = append(evs, hx.Event{"op": "snapshot", "mode": mode, "cat": cat, "lk": lk, "extra": extra, "tome": tome, "kinds": kinds, "rel": rel})
+			evs = append(evs, hx.Event{"op": "snapshot", "mode": mode, "cat": cat, "lk": lk, "extra": extra, "tome": tome, "kinds": kinds, "rel": rel, "fillobs": fillobs})
 		}
 		return evs
 	})
